@@ -35,4 +35,67 @@ def heapOrdered (a : Array Elem) : Bool :=
       | _, _ => false
     else true
 
+
+/-! ## heap histories -/
+
+/-- one API call of a heap history -/
+inductive HOp where
+  | ins (x : Elem)       -- muggle_heap_insert
+  | ext                  -- muggle_heap_extract
+  | rm (key : Int)       -- muggle_heap_find + muggle_heap_remove of the node found
+  | rmi (idx : Nat)      -- muggle_heap_remove(&nodes[idx])
+  deriving Repr, DecidableEq
+
+/-- the call on the model: new heap and the entry returned / released (`none`: the call
+    returned false / found nothing) -/
+def hstep (h : Heap) : HOp → Except Err (Heap × Option Elem)
+  | .ins x =>
+    match h.insert x with
+    | .error e => .error e
+    | .ok none => .ok (h, none)
+    | .ok (some h') => .ok (h', some x)
+  | .ext =>
+    match h.extract with
+    | .error e => .error e
+    | .ok none => .ok (h, none)
+    | .ok (some (r, h')) => .ok (h', some r)
+  | .rm key =>
+    match h.find key with
+    | .error e => .error e
+    | .ok none => .ok (h, none)
+    | .ok (some i) =>
+      match h.remove i with
+      | .error e => .error e
+      | .ok none => .ok (h, none)
+      | .ok (some (r, h')) => .ok (h', some r)
+  | .rmi idx =>
+    match h.remove idx with
+    | .error e => .error e
+    | .ok none => .ok (h, none)
+    | .ok (some (r, h')) => .ok (h', some r)
+
+/-- a whole history -/
+def hrun (h : Heap) : List HOp → Except Err (Heap × List (Option Elem))
+  | [] => .ok (h, [])
+  | op :: ops =>
+    match hstep h op with
+    | .error e => .error e
+    | .ok (h1, r) =>
+      match hrun h1 ops with
+      | .error e => .error e
+      | .ok (h2, rs) => .ok (h2, r :: rs)
+
+/-- extract until the heap is empty (at most `n` times): the order in which the heap
+    yields its entries -/
+def drain : Nat → Heap → Except Err (List Elem)
+  | 0, _ => .ok []
+  | n + 1, h =>
+    match h.extract with
+    | .error e => .error e
+    | .ok none => .ok []
+    | .ok (some (r, h')) =>
+      match drain n h' with
+      | .error e => .error e
+      | .ok l => .ok (r :: l)
+
 end MgModel.C10
